@@ -7,7 +7,7 @@ from .. import tlc
 from ..core import MachineryError
 from ..readerlib import conv, line_starts, outcome, same
 
-ALPHA = ["(", ")", "[", "]", "{", "}", "\"", "'", "`", "~", "@", "#", ";", ":", ".", " ", "\n", "_", "*", "^",
+ALPHA = ["(", ")", "[", "]", "{", "}", "\"", "'", "`", "~", "@", "#", ";", ":", ".", " ", "\n", "\r", "_", "*", "^",
          "\\", "a", "1", "f", "r", "b", "=", "!", "N", "x"]
 FALPHA = ["\"", "{", "}", "a", " ", "!", ":", "=", "r", "(", ")"]
 LAWS = ["Total", "ChildrenInside", "ChildrenOrdered", "TopLevelOrdered", "CutLaw", "SepLaw", "ConcatLaw",
@@ -112,7 +112,7 @@ def mutated_programs(rng, n):
             return rng.choice(atoms)
         if r < 0.75:
             o, c = rng.choice(["()", "[]", "{}", ("#{", "}"), ("#(", ")")])
-            sep = rng.choice([" ", "\n", "  ", " ;c\n "])
+            sep = rng.choice([" ", "\n", "  ", " ;c\n ", "\r\n", "\r"])
             return o + sep.join(form(d - 1) for _ in range(rng.randint(0, 3))) + c
         p = rng.choice(["'", "`", "~", "~@", "#* ", "#** ", "#_ ", "#^ "])
         if p == "#^ ":
@@ -121,7 +121,7 @@ def mutated_programs(rng, n):
     out = []
     chars = "()[]{}\"'`~@#;:. \n_*^\\a1frb=!Nx-"
     for _ in range(n):
-        t = rng.choice([" ", "\n", "\n\n"]).join(form(3) for _ in range(rng.randint(1, 3)))
+        t = rng.choice([" ", "\n", "\n\n", "\r\n"]).join(form(3) for _ in range(rng.randint(1, 3)))
         out.append(t)
         for _ in range(3):
             i = rng.randrange(len(t) + 1)
@@ -306,7 +306,7 @@ def main_c19(run):
 
 
 # ---------------------------------------------------------------- C20
-SEPS = [" ", "\n", "\t", ";a\n", " #_ a ", "\r\n", " #_ (b c) ", " ; x\n\n"]
+SEPS = [" ", "\n", "\t", ";a\n", " #_ a ", "\r\n", " #_ (b c) ", " ; x\n\n", "\r", ";a\rb(\n"]
 
 
 def sugar_pairs(rng, n):
@@ -442,7 +442,7 @@ def main_c21(run):
                 run.violation("order:" + t, f"{t!r}: children of {m['t']} out of source order", {"text": t})
     run.cov["regions_reread"] = nreg
     # multi-line texts validated against the spec (positions included)
-    ml = [t for t in texts if "\n" in t][: (500 if q else 20000)]
+    ml = [t for t in texts if "\n" in t or "\r" in t][: (800 if q else 20000)]
     recs, acc, unk, says = file_validate(run, ml, "ml")
     for i, t in enumerate(ml, 1):
         if i in acc:
